@@ -4,10 +4,14 @@
 (a check that was strengthened after a miss is re-run)."""
 import json, os, re, sys, glob
 V = os.path.dirname(os.path.dirname(os.path.abspath(__file__)))
-log = sys.argv[1] if len(sys.argv) > 1 else os.path.join(V, '.run/logs/mut_results.txt')
+logs = sys.argv[1:] or [os.path.join(V, '.run/logs/mut_results.txt'), os.path.join(V, '.run/logs/mut_results2.txt')]
 res, hist = {}, {}
-for line in open(log, errors='replace'):
-    m = re.match(r'^(\S+-[ab]|self-\S+) (C\d\d) rc=(\d+)\s*(?:VIOLATION \S+ \S+\s+fingerprint: (.*?)\s+cases: (\d+))?', line)
+lines = []
+for log in logs:
+    if os.path.exists(log):
+        lines += open(log, errors='replace').read().split('\n')
+for line in lines:
+    m = re.match(r'^(\S+-[abcd]|self-\S+) (C\d\d) rc=(\d+)\s*(?:VIOLATION \S+ \S+\s+fingerprint: (.*?)\s+cases: (\d+))?', line)
     if not m:
         continue
     seed, chk, rc, fp, n = m.groups()
